@@ -1297,6 +1297,7 @@ package fosite
 //@   requires f != nil && requester != nil
 //@   modifies everything
 //@   ensures [C18.no-response-after-handler-error] err != nil ==> result == nil
+//@   ensures [C18.only-unknown-request-is-skipped] !eis(ErrSerializationFailure, ErrUnknownRequest) && !eis(ErrServerError, ErrUnknownRequest) && !eis(ErrInvalidRequest, ErrUnknownRequest) && !eis(ErrInvalidGrant, ErrUnknownRequest) && !eis(ErrInvalidClient, ErrUnknownRequest) && !eis(ErrNotFound, ErrUnknownRequest) && !eis(ErrInactiveToken, ErrUnknownRequest) && !eis(ErrTokenExpired, ErrUnknownRequest) && !eis(ErrInvalidScope, ErrUnknownRequest) && !eis(ErrUnauthorizedClient, ErrUnknownRequest) && !eis(ErrTemporarilyUnavailable, ErrUnknownRequest) && !eis(ErrAccessDenied, ErrUnknownRequest)
 //@   ensures [C18.response-carries-token] err == nil ==> result != nil && result.GetAccessToken() != "" && result.GetTokenType() != ""
 //@ func (*AccessResponse).GetAccessToken
 //@   requires a != nil
